@@ -62,11 +62,11 @@ PROPS = {
         "claim": "Proof (safety, full): in every run of the timed model (events notify/received/timerFire with time stamps; OnlyInterested, Suspend, "
                  "rand as oracles; LRU with eviction) a request for an item goes to a peer whose accepted announcement is still valid (not received / "
                  "not reported uninteresting since) and the item is reported interesting in the event that issues the request; hence no request after "
-                 "received/not-interested until announced anew. Proof (liveness, partial): timer-armed invariant for the repaired rule (announces "
-                 "non-empty => armed, deadline <= last event + ArriveTimeout), every timer event requests every pending item, the deadline is never "
-                 "moved while a request is outstanding; decide-witness that the pre-fix rule leaves the timer unarmed (D3). Not proved because false "
-                 "for the code: the 2x bound for an item announced while suspended when later notifications find `fetching` empty (each re-arms the "
-                 "timer; decide-witness, defect candidate). Correspondence: real Fetcher, 20-60 ms timeouts, trace acceptance: every observed request "
+                 "received/not-interested until announced anew. Proof (liveness): C16_pending_requested - from any state of a run (timer-armed invariant: announces non-empty => armed, "
+                 "deadline <= last event + ArriveTimeout), through any notifications/receipts (they never move an armed deadline), the timer event "
+                 "comes by t0 + ArriveTimeout + timer latency and requests every pending item; the constant proved is 1x ArriveTimeout + latency after "
+                 "the announcement, independent of suspension. decide-witnesses for the two earlier arming rules (D3: timer unarmed; re-arm: pending item "
+                 "postponed without bound). Correspondence: real Fetcher, 20-60 ms timeouts, trace acceptance: every observed request "
                  "is one the model issues, every model request is observed, the announced set at every timer event equals the model's, an armed timer "
                  "fires within 2*ArriveTimeout+300 ms, plus the property's own bound evaluated on the trace.",
         "note": "Trusted: Lean kernel, extractor, harness, judge (lean/Driver/Gossip.lean Drv.Fetch). Go timer/scheduler latency is outside the model; "
